@@ -21,9 +21,7 @@ type Histogram struct {
 // Bucket for the given Result latency and increasing its count by one as well
 // as the total count.
 func (h *Histogram) Add(r *Result) {
-	if len(h.Counts) != len(h.Buckets) {
-		h.Counts = make([]uint64, len(h.Buckets))
-	}
+	h.init()
 
 	var i int
 	for ; i < len(h.Buckets)-1; i++ {
@@ -36,8 +34,18 @@ func (h *Histogram) Add(r *Result) {
 	h.Counts[i]++
 }
 
+// init allocates the bucket counts if that hasn't happened yet, so that a
+// Histogram without any added Result has a zero count in every bucket.
+func (h *Histogram) init() {
+	if len(h.Counts) != len(h.Buckets) {
+		h.Counts = make([]uint64, len(h.Buckets))
+	}
+}
+
 // MarshalJSON returns a JSON encoding of the buckets and their counts.
 func (h *Histogram) MarshalJSON() ([]byte, error) {
+	h.init()
+
 	var buf bytes.Buffer
 
 	// Custom marshalling to guarantee order.
